@@ -10,7 +10,8 @@
   * `Compose_agrees`         : for ALL forms, signs, byte strings (shorter than 2^60 bytes) and int32
       exponents, `Gen.Decimal.Compose` returns what `Spec.composeExpect` demands
       (`.ok v` ⇒ success with a Decimal that is `Val.same` as `v`; `.error` ⇒ the matching error and `d`)
-  * `minBE`, `beBytes_eq`    : `Spec.beBytes n` is the unique big-endian string without leading zero byte
+  * `NoLead`, `go_eq`, `beBytes_eq` : `Spec.beBytes n` is the unique big-endian string of `n` without
+      leading zero byte (up to 64 bytes)
   * `Decompose_agrees`       : `Gen.Decimal.Decompose d buf` returns `Spec.decomposeExpect 𝔳[d]`, any `buf`
   * `roundtrip_fin`, `roundtrip_inf`, `roundtrip_nan`
 -/
